@@ -38,7 +38,11 @@ PROPS = {
             "prescribes ('\\*' -> escaped star, '*' -> '.*', any other character -> re.escape of itself; a lone or trailing "
             "backslash is an ordinary character) by the loop invariant Rx(pat) = regex ++ Rx(pending ++ rest), compiled with "
             "DOTALL; it allocates but writes nothing (so the lru_cache in front of it is the identity); "
-            "match_with_wildcard(name, None) is True and otherwise is fullmatch of that regex.  What the regex engine "
+            "match_with_wildcard(name, None) is True and otherwise is fullmatch of that regex; filter_sphinx_inventories "
+            "(nested dicts as read-only mapping objects, three nested loop invariants) yields ONLY entries that exist in the "
+            "data under the object type spelled `domain:otype` with the FIRST colon as separator, whose four coordinates are "
+            "each accepted by match_with_wildcard, with project / version / location copied from the entry and no base URL "
+            "(soundness of the result; that NO matching entry is missing and the order are bounded only).  What the regex engine "
             "matches (re.escape / '.*' / fullmatch semantics) is an ASSUMED contract of the stdlib and is cross-checked "
             "only by the BOUNDED stand-in: match_with_wildcard against the statement's matching relation for all short "
             "(pattern, name) pairs, and filter_inventories / filter_sphinx_inventories against the nested-loop "
